@@ -138,8 +138,8 @@ func lsFiles(g *gitx.Git, dir string) ([]string, error) {
 
 func run(c *vf.Ctx) {
 	g := gitx.New(c.Scratch)
-	nHist := c.N(6, 40)
-	perHist := c.N(12, 36)
+	nHist := c.N(6, 16)
+	perHist := c.N(12, 30)
 	var mu sync.Mutex
 	failCount := map[string]int{}
 	refusals := map[string]int{}
@@ -496,10 +496,10 @@ func run(c *vf.Ctx) {
 	c.Extra("git_invocations", gitx.Calls.Load())
 	c.Extra("failures_by_key", failCount)
 	c.Extra("refusals", refusals)
-	c.Floor("operation steps compared", c.Counter("steps_compared"), c.N(90, 2000))
+	c.Floor("operation steps compared", c.Counter("steps_compared"), c.N(90, 700))
 	c.Floor("operation kinds", c.SeenCount("op_kinds"), len(opKinds))
 	c.Floor("operation x argument kinds", c.SeenCount("arg_kinds"), c.N(20, 28))
-	c.Floor("commits whose tree was compared with git write-tree", c.Counter("commit_trees_confirmed_by_write_tree"), c.N(4, 100))
+	c.Floor("commits whose tree was compared with git write-tree", c.Counter("commit_trees_confirmed_by_write_tree"), c.N(4, 40))
 	c.Assume("equivalences: Add(path|dir)=git add -- p; AddWithOptions{All}=git add -A; AddGlob(g)=git add -- <filepath.Glob expansion of g over the worktree, .git excluded> (shell-style expansion, directories recursively); Remove=git rm -f [-r]; RemoveGlob(g)=git rm -f -- g (default pathspec: * crosses /, as go-git's index matcher does); Move=git mv; Clean{}=git clean -f; Clean{Dir}=git clean -f -d; Commit{All}=git commit [-a] with identical author/committer/date/message")
 	c.Assume("explicit Add of an ignored file is not generated (git add refuses without -f, go-git documents adding it: no equivalent command); Move of directories is documented as unsupported and not generated; .git/info/exclude is not used (C27 finding)")
 	c.Assume("index stat fields, cache-tree/untracked-cache extensions and commit ids are not compared; only paths, modes, ids, stages, remaining files, recorded tree, parents and HEAD")
@@ -586,6 +586,19 @@ func diffIndex(op opSpec, ia, ib []string, before fsguard.Snapshot, rec caseRec,
 			key := fmt.Sprintf("%s:index-entry-%s-differs:pre=%s", op.Kind, what, feat(k))
 			if op.Kind == "move" {
 				key = fmt.Sprintf("move:index-entry-%s-differs:%s", what, strings.SplitN(op.ArgKind, "->", 2)[0])
+				// did go-git take the mode from the file on disk (git moves the index entry untouched)?
+				if e, ok := before[op.Arg]; ok && what == "mode" && k == op.Arg2+"#0" {
+					disk := "100644"
+					switch {
+					case e.Mode&os.ModeSymlink != 0:
+						disk = "120000"
+					case e.Mode.Perm()&0o100 != 0:
+						disk = "100755"
+					}
+					if strings.Fields(b)[0] == disk {
+						key = "move:index-entry-mode-differs:mode-taken-from-worktree-file"
+					}
+				}
 			}
 			fails = append(fails, failure{key, fmt.Sprintf("%s: git %s, go-git %s", k, a, b)})
 		}
